@@ -660,6 +660,13 @@ func (s *sim) cmd(idx int, st Step) string {
 			badSet = true
 		}
 	}
+	for _, pt := range st.Patterns {
+		if pt == "./nosuch" {
+			// a pattern that names no directory: a load failure of the whole invocation, like a type error
+			typeErrT = append(typeErrT, pt)
+			e.Stats.Counts.Add("probe_pattern_matching_nothing", 1)
+		}
+	}
 	// A type error anywhere in the import closure of a target breaks the load: lib is imported by some variants.
 	if len(disagree) > 0 {
 		e.Stats.Counts.Add("classification_disagreement", 1)
@@ -855,7 +862,10 @@ func (s *sim) cmd(idx int, st Step) string {
 			var want []int
 			switch {
 			case trouble && loadFails && len(badT) == 0 && !st.NoGo && !hdrBad && !firedHas(fired, "getwd"):
-				want = []int{1, 2} // load failure: the weaker reading (non-zero)
+				// a package that does not load (type error, a pattern naming no directory): generation fails, so the
+				// comparison cannot be completed. (An earlier version accepted 1 as well - "the weaker reading" - which
+				// was weaker than the statement: its list of reasons for 2 begins with "generation fails".)
+				want = []int{2}
 			case trouble:
 				want = []int{2}
 			case readOutFault:
